@@ -171,6 +171,40 @@ def _gbperm(t):
     return "ok differ " + ",".join(sorted(set(diff)) or ["gene-count"])
 
 
+def _xq(t):
+    """export_qualifiers(parent_qualifiers) of a FeatureInterval / TranscriptInterval / CDSInterval"""
+    from inscripta.biocantor.gene.feature import FeatureInterval
+    from inscripta.biocantor.gene.transcript import TranscriptInterval
+    from inscripta.biocantor.gene.cds import CDSInterval
+    from inscripta.biocantor.gene.cds_frame import CDSFrame
+    from inscripta.biocantor.gene.biotype import Biotype
+    from inscripta.biocantor.location.strand import Strand
+    kind = t.next()
+    own = t.dict_()
+    parent = None
+    if t.next() == "P":
+        parent = {k: set(v) for k, v in t.dict_().items()}      # parents hand their qualifiers over as sets
+    attrs = []
+    for _ in range(int(t.next())):
+        x = t.next()
+        attrs.append(None if x == "None" else dec(x))
+    own_arg = own if own else None
+    if kind == "f":
+        iv = FeatureInterval([0], [10], Strand.PLUS, qualifiers=own_arg, feature_name=attrs[0], feature_id=attrs[1])
+    elif kind == "t":
+        iv = TranscriptInterval([0], [10], Strand.PLUS, qualifiers=own_arg, transcript_id=attrs[0],
+                                transcript_symbol=attrs[1], transcript_type=Biotype[attrs[2]] if attrs[2] else None,
+                                protein_id=attrs[3])
+    else:
+        iv = CDSInterval([0], [9], Strand.PLUS, [CDSFrame.ZERO], qualifiers=own_arg, protein_id=attrs[0], product=attrs[1])
+    before = {k: set(v) for k, v in iv.qualifiers.items()}
+    pbefore = None if parent is None else {k: set(v) for k, v in parent.items()}
+    r = iv.export_qualifiers(parent)
+    if iv.qualifiers != before or parent != pbefore:
+        return "err! OperandMutated"
+    return "ok " + enc_dict((k, sorted(v)) for k, v in r.items())
+
+
 def impl_qual_op(line):
     toks = line.split()
     t = Toks(toks[1:])
@@ -196,6 +230,8 @@ def impl_qual_op(line):
             d = t.dict_()
             r = L["G"].filter_and_sort_qualifiers(d)
             return "ok None" if r is None else "ok " + enc_dict(r.items())
+        if op == "xq":
+            return _xq(t)
         if op == "gbiotype":
             tys = t.list_()
             feats = [("L0", "gene", 5, 40 + 20 * len(tys), 0)] + [("L0", ty, 10 + 20 * i, 25 + 20 * i, i + 1)
